@@ -8,8 +8,9 @@
    [P : prims] are the third-party primitives (MD5, SHA-2, the AES block function), the same abstract functions on
    both sides ([iprims_of P]); RC4 is lopdf's own code on both sides (anchored by RFC 6229 vectors).
    Assumed of the primitives, where used: [forall m, length (p_md5 P m) = 16] (true of the Gallina MD5:
-   C06_md5_length) and [aes_ok P] (AES decryption inverts encryption on 16-byte blocks; not proved of the Gallina
-   AES -- vectors and differential runs only).
+   C06_md5_length), [aes_ok P] (AES decryption inverts encryption on 16-byte blocks; proved of the Gallina AES:
+   Proofs/CryptoProofsAES.v) and, for revisions 5 / 6, the SHA-2 output sizes (proved of the Gallina SHA-2:
+   C06_sha2_lengths).
    Passwords are the prepared byte strings (PDFDocEncoding / SASLprep are an oracle outside the development).
 
    Domain (each a restriction the property text itself makes, see notes/C06.md): revisions 2-6; key lengths
@@ -22,7 +23,8 @@ From LV Require Import Base.Bytes Base.Sx Model.Obj Model.DocQ Gen.Crypto
   Spec.Crypto.Iso Spec.Crypto.IsoConcrete
   Proofs.CryptoProofs Proofs.CryptoProofsFilter Proofs.CryptoProofsObject Proofs.IsoProofs Proofs.IsoProofsData
   Proofs.CryptoProofsDoc Proofs.IsoProofsObj Proofs.IsoProofsFilter Proofs.IsoProofsAuth Proofs.IsoProofsDoc Proofs.IsoProofsRT
-  Proofs.IsoProofsDoc2 Proofs.IsoProofsPerms Proofs.IsoProofsDoc6 Proofs.IsoProofsDoc7 Proofs.IsoProofsExamples Proofs.CryptoProofsAES.
+  Proofs.IsoProofsDoc2 Proofs.IsoProofsPerms Proofs.IsoProofsDoc6 Proofs.IsoProofsDoc7 Proofs.IsoProofsExamples Proofs.CryptoProofsAES
+  Model.Crypto.SHA2 Proofs.CryptoProofsSHA.
 Local Open Scope N_scope.
 
 (* ---------------- rung 1: constants and formulations ---------------- *)
@@ -509,6 +511,30 @@ Proof. exact lopdf_encrypt_iso_decrypt_user_r6. Qed.
 
 
 
+(* For the executable primitives the SHA-2 output sizes are theorems too (Proofs/CryptoProofsSHA.v: the digest is the
+   serialisation of eight 32- / 64-bit words, whatever the message -- no hash is computed), so the revision 5 / 6
+   statements hold with no hypothesis about the primitives either: *)
+Theorem C06_sha2_lengths :
+  (forall m, length (sha256 m) = 32%nat) /\ (forall m, length (sha384 m) = 48%nat) /\ (forall m, length (sha512 m) = 64%nat).
+Proof. exact (conj sha256_length (conj sha384_length sha512_length)). Qed.
+
+Theorem C06_iso_encrypt_lopdf_decrypt_owner_r6_concrete : forall rq eid rnd ivs d,
+  request_ok_r6 rq -> doc_ok (rq_core rq) d eid ->
+  doc_decrypt concrete (encrypt_document iconcrete rq eid rnd ivs d) (owner_r6 rq) =
+  DOk (opened_doc d eid (st_of (ip_r6 concrete rq rnd) (rq_fek rq))) (st_of (ip_r6 concrete rq rnd) (rq_fek rq)).
+Proof.
+  exact (iso_encrypt_lopdf_decrypt_owner_r6 concrete md5_length concrete_aes_ok sha256_length sha384_length sha512_length).
+Qed.
+
+Theorem C06_lopdf_encrypt_iso_decrypt_owner_r6_concrete : forall d v rnd ivs st d1,
+  version_ok6 v -> max_id_ok d -> dict_get (d_trailer d) K_Encrypt = None ->
+  Forall (fun io => indirect_ok (ip_of_st6 (st_of_version6 concrete v rnd)) (snd io)) (d_objects d) ->
+  try_from_version concrete d v rnd = Ok st -> doc_encrypt concrete st d ivs = DOk d1 tt ->
+  open_document iconcrete d1 (v_owner v) = Opened (plain_again6 d st) (es_key st).
+Proof.
+  exact (lopdf_encrypt_iso_decrypt_owner_r6 concrete md5_length concrete_aes_ok sha256_length sha384_length sha512_length).
+Qed.
+
 (* ---------------- non-vacuity and computed whole-document instances ---------------- *)
 (* every hypothesis record of the theorems above is satisfiable: requests and documents for the standard's writer
    (V 2 with indirect and direct dictionary, V 4 with two crypt filters, EFF and EncryptMetadata false, V 5 / R 6),
@@ -638,6 +664,9 @@ Print Assumptions C06_try_from_version_r6.
 Print Assumptions C06_iso_opens_lopdf_r6.
 Print Assumptions C06_lopdf_encrypt_iso_decrypt_owner_r6.
 Print Assumptions C06_lopdf_encrypt_iso_decrypt_user_r6.
+Print Assumptions C06_sha2_lengths.
+Print Assumptions C06_iso_encrypt_lopdf_decrypt_owner_r6_concrete.
+Print Assumptions C06_lopdf_encrypt_iso_decrypt_owner_r6_concrete.
 Print Assumptions C06_example_hypotheses.
 Print Assumptions C06_example_iso_encrypt_lopdf_decrypt.
 Print Assumptions C06_example_lopdf_encrypt_iso_decrypt.
